@@ -73,6 +73,7 @@ structure StoreWS where
   added : List UUID := []
   fetched : List (UUID × Int) := []
   items : Nat := 0                         -- tracked items with a non-add action (lock records)
+  writeItems : Nat := 0                    -- of those, the ones with an update or remove action (the rest are reads)
   tracked : Bool := true                   -- hasTrackedItems
   delta : Int := 0                         -- Count - count at open
   values : List UUID := []                 -- separate-segment value blobs to add
@@ -105,6 +106,7 @@ structure State where
   plog : Tid → Bool := fun _ => false         -- a priority-log file exists
   nodeLock : UUID → Option Tid := fun _ => none
   itemLock : Nat → Option Tid := fun _ => none  -- lock records of a store's tracked items (all-or-none per store)
+  itemLockW : Nat → Bool := fun _ => false      -- those records include one of an update/remove (not only read locks)
   now : Int := 1000000000
   hour : Int := 3600000
 deriving Inhabited
@@ -255,10 +257,12 @@ def lockItems (w : WS) : M Unit := do
       match r.s.itemLock st.store with
       | some owner =>
         if owner = r.tid then pure ()       -- our own records: nothing to set or verify
-        else fail                            -- "lock(item) call detected conflict"
+        else if st.writeItems > 0 || r.s.itemLockW st.store then fail   -- "lock(item) call detected conflict"
+        else pure ()                         -- read locks on both sides are compatible: carry on, not the owner
       | none =>
         call .l2SetStructs (.num st.items)
-          (fun s => { s with itemLock := fun k => if k = st.store then some r.tid else s.itemLock k })
+          (fun s => { s with itemLock := fun k => if k = st.store then some r.tid else s.itemLock k,
+                             itemLockW := fun k => if k = st.store then decide (st.writeItems > 0) else s.itemLockW k })
         call .l2GetStructs (.num st.items) id
         modify (fun r => { r with lockOwner := st.store :: r.lockOwner })
 
@@ -275,7 +279,7 @@ def checkItems (w : WS) : M Unit := do
       let r ← get
       call .l2GetStructs (.num st.items) id
       match r.s.itemLock st.store with
-      | some owner => if owner = r.tid then pure () else fail
+      | some owner => if owner = r.tid then pure () else if st.writeItems > 0 || r.s.itemLockW st.store then fail else pure ()
       | none => pure ()          -- "not found" is not treated as an error
 
 /-! ## Node locks -/
